@@ -1078,3 +1078,67 @@ def sys_total(I, g):
     for p_ in parts[1:]: tot = mv_add(tot, p_)
     kgf = I.units.literal("kg").f
     return mv_map(tot, lambda x: I.round_term(x / kgf, PyNum(z3.IntVal(4))) * kgf, W.MASS)
+
+
+# =====================================================================================================================
+# JobBase.update_*_per_usage_pattern  (C02 / C03: every usage pattern of the job gets its own entry, none missing, none mixed up)
+# =====================================================================================================================
+def _callee_result(I, job, up, what, dim=None):
+    """call-site contract of compute_hourly_occurrences_for_usage_pattern / compute_hourly_data_exchange_for_usage_pattern:
+    the value the callee computes for this usage pattern (its content is the callee's own contract, proved in its own job),
+    a fresh labelled object that nothing holds yet"""
+    v = W.UPDict(I.world, job, f"<{what}>", dim or DIMLESS).get(I, up)
+    for e in (v.nonempty,):
+        e.attached = None; e.fresh_obj = True
+    return v
+
+
+def call_job_occ(I, job, usage_pattern):
+    return _callee_result(I, job, usage_pattern, "compute_hourly_occurrences_for_usage_pattern")
+
+
+def call_job_dx(I, job, usage_pattern, data_exchange_type):
+    if not isinstance(data_exchange_type, str): raise Unsupported("data exchange type is not a literal")
+    return _callee_result(I, job, usage_pattern, f"compute_hourly_data_exchange_for_usage_pattern:{data_exchange_type}")
+
+
+WORLD_SPECS[("JobBase", "compute_hourly_occurrences_for_usage_pattern")] = call_job_occ
+WORLD_SPECS[("JobBase", "compute_hourly_data_exchange_for_usage_pattern")] = call_job_dx
+
+
+def _avg_entry(I, job, up):
+    occ = I.model_getattr(job, "hourly_occurrences_per_usage_pattern").get(I, up)
+    rd = I.model_getattr(job, "request_duration")
+    r = spec_avg(I, occ, rd)
+    return r
+
+
+def _mk_dict_update(fn, attr, value_of, doc):
+    def loops(I, g):
+        def loop0(ctx):
+            I_ = ctx.interp; job = ctx.env["self"]; ups = ctx.it
+            def view(i):
+                d = KDict(ups, lambda k: value_of(I_, job, ups.elem(k)), dom=lambda k, i=i: k < i); d.explainable_dict = True
+                return {f"self.{attr}": d}
+            view.commutative = True         # entries are written under distinct keys: the order of the usage patterns is irrelevant
+            return view
+        return {0: loop0}
+    def spec(I, g):
+        ups = g.lst("usage_patterns")
+        return KDict(ups, lambda k: value_of(I, g.o, ups.elem(k)))
+    spec.__doc__ = doc
+    UPDATE_SPECS[("JobBase", fn)] = Spec("JobBase", fn, attr=attr, spec=spec, loops=loops)
+    CONCRETE[("JobBase", fn)] = ["Job"]
+
+
+_mk_dict_update("update_hourly_occurrences_per_usage_pattern", "hourly_occurrences_per_usage_pattern",
+                lambda I, job, up: call_job_occ(I, job, up),
+                "entry[up] = compute_hourly_occurrences_for_usage_pattern(up) for every usage pattern of the job, and no other key")
+_mk_dict_update("update_hourly_avg_occurrences_per_usage_pattern", "hourly_avg_occurrences_per_usage_pattern", _avg_entry,
+                "entry[up] = avg(hourly_occurrences_per_usage_pattern[up], request_duration) for every usage pattern of the job, and no other key")
+_mk_dict_update("update_hourly_data_transferred_per_usage_pattern", "hourly_data_transferred_per_usage_pattern",
+                lambda I, job, up: call_job_dx(I, job, up, "data_transferred"),
+                "entry[up] = compute_hourly_data_exchange_for_usage_pattern(up, 'data_transferred') for every usage pattern of the job, and no other key")
+_mk_dict_update("update_hourly_data_stored_per_usage_pattern", "hourly_data_stored_per_usage_pattern",
+                lambda I, job, up: call_job_dx(I, job, up, "data_stored"),
+                "entry[up] = compute_hourly_data_exchange_for_usage_pattern(up, 'data_stored') for every usage pattern of the job, and no other key")
